@@ -63,6 +63,9 @@ impl Rig {
         let mut ctx = self.ctx.clone();
         ctx.variables.insert("v".into(), v.to_string());
         ctx.variables.insert("w".into(), "W".to_string());
+        // positional variables of an enclosing call: a predicate function must see its own arguments
+        ctx.variables.insert("1".into(), "outer-one".to_string());
+        ctx.variables.insert("2".into(), "outer-two".to_string());
         let (env, _o, _e, h) = quiet_env();
         if let Some(slot) = halt {
             *slot.halt.lock().unwrap() = Some(h.clone());
